@@ -48,13 +48,14 @@ type c28Route struct {
 }
 
 type c28Peer struct {
-	idx     int
-	pph     c27PPH
-	local   [16]byte
-	localAS uint32
-	localID uint32
-	addPath bool
-	addrStr string
+	idx      int
+	bulkLeft int
+	pph      c27PPH
+	local    [16]byte
+	localAS  uint32
+	localID  uint32
+	addPath  bool
+	addrStr  string
 
 	up     bool
 	routes map[string]c28Route // key: prefix[#pathid]
@@ -160,6 +161,27 @@ type c28World struct {
 
 	sawTwoPeersWithRoutes bool
 	sawDownWithRoutes     bool
+
+	// viaReader: every message goes through recvBMPMsg (the framing function of Router.serve) on a connection
+	// that delivers it in chunks of `chunk` bytes, then to processMsg, as serve's loop does
+	viaReader bool
+	chunk     int
+	readerErr string
+}
+
+func (w *c28World) deliver(msg []byte) {
+	if !w.viaReader {
+		w.r.processMsg(msg)
+		return
+	}
+	got, err := recvBMPMsg(c27NewConn(msg, w.chunk))
+	if err != nil {
+		if w.readerErr == "" {
+			w.readerErr = fmt.Sprintf("recvBMPMsg failed on a well-formed message of %d bytes: %v", len(msg), err)
+		}
+		return
+	}
+	w.r.processMsg(got)
 }
 
 func c28PrefixPool(v6 bool) []c27NLRI {
@@ -341,6 +363,9 @@ func (w *c28World) attachObservers() {
 
 // check compares model and tables; returns a violation text or "".
 func (w *c28World) check(after string) string {
+	if w.readerErr != "" {
+		return w.readerErr
+	}
 	for _, rd := range w.rds {
 		for _, v6 := range []bool{false, true} {
 			want := w.expected(rd, v6)
@@ -464,18 +489,43 @@ func c28GenWorld(t *rapid.T, logf func(string, ...interface{})) *c28World {
 		p.localID = 0x0a0000fe
 		p.addPath = rapid.IntRange(0, 2).Draw(t, "addpath") == 0
 		p.addrStr = c28AddrString(p.pph.Addr, v6)
+		if i == 0 && rapid.IntRange(0, 5).Draw(t, "bulk_case") == 0 {
+			p.bulkLeft = 1 // one table-dump sized UPDATE in this history
+		}
 		w.peers = append(w.peers, p)
 		logf("peer %d rd=%d addr=%s as=%d addpath=%v post=%v", i, p.pph.RD, p.addrStr, p.pph.AS, p.addPath, post)
 	}
 	// two peers of one VRF must not share an address (they would be one peer)
 	w.r = newRouter(net.IP{10, 0, 0, 254}, 1790, adjRIBInFactory{}, w.cfg)
 	w.r.con = c27NewConn(nil, 0)
+	if rapid.Bool().Draw(t, "via_reader") {
+		w.viaReader = true
+		w.chunk = rapid.SampledFrom([]int{0, 1, 7, 1000, 4096}).Draw(t, "chunk")
+	}
+	logf("messages through recvBMPMsg: %v (chunk %d)", w.viaReader, w.chunk)
 	return w
 }
 
 func c28GenUpdate(t *rapid.T, p *c28Peer) c28Update {
 	u := c28Update{v6: rapid.IntRange(0, 2).Draw(t, "upd_v6") == 0}
 	pool := c28PrefixPool(u.v6)
+	if !u.v6 && p.bulkLeft > 0 && rapid.IntRange(0, 5).Draw(t, "bulk") == 0 {
+		p.bulkLeft--
+		// table-dump sized UPDATE: several hundred /24s with one attribute set (a BMP message above 4096 bytes
+		// once the per-peer header is in front of a full-size UPDATE)
+		k := rapid.SampledFrom([]int{250, 900, 1005}).Draw(t, "bulk_n")
+		id := uint32(0)
+		if p.addPath {
+			k = (k + 1) / 2
+			id = uint32(rapid.IntRange(1, 3).Draw(t, "bulk_id"))
+		}
+		for i := 0; i < k; i++ {
+			u.announce = append(u.announce, c27NLRI{Addr: []byte{20, byte(i >> 8), byte(i), 0}, Len: 24, PathID: id})
+		}
+		u.asns = []uint32{65001}
+		u.attrs = c28Route{lp: 100, med: uint32(rapid.IntRange(0, 3).Draw(t, "bulk_med")), asPath: c28ASPathString(u.asns)}
+		return u
+	}
 	kind := rapid.SampledFrom([]string{"ann", "ann", "ann", "wd", "both"}).Draw(t, "kind")
 	used := map[string]bool{}
 	pick := func(label string) (c27NLRI, bool) {
@@ -534,7 +584,7 @@ func c28Describe(u c28Update) string {
 // c28Run executes one generated history; returns a violation or "".
 func c28Run(t *rapid.T, c *kit.Case) string {
 	w := c28GenWorld(t, c.Logf)
-	w.r.processMsg(c27Initiation(c27TLV(2, []byte("r1"))))
+	w.deliver(c27Initiation(c27TLV(2, []byte("r1"))))
 	nsteps := rapid.IntRange(4, 50).Draw(t, "nsteps")
 	for s := 0; s < nsteps; s++ {
 		p := w.peers[rapid.IntRange(0, len(w.peers)-1).Draw(t, "peer")]
@@ -550,7 +600,7 @@ func c28Run(t *rapid.T, c *kit.Case) string {
 				step = "rm"
 			} else {
 				desc = fmt.Sprintf("peer-up peer %d", p.idx)
-				w.r.processMsg(w.peerUpMsg(p))
+				w.deliver(w.peerUpMsg(p))
 				p.up = true
 				p.routes = map[string]c28Route{}
 				c.Class("peer_up")
@@ -577,7 +627,7 @@ func c28Run(t *rapid.T, c *kit.Case) string {
 				c.Class("rm_legacy_aspath_format")
 			}
 			desc = fmt.Sprintf("route-monitoring peer %d (up=%v ignoredFlavour=%v A=%v) %s", p.idx, p.up, ignoredFlavour, u.legacy, c28Describe(u))
-			w.r.processMsg(c27RouteMon(pph, u.bytes(p.addPath)))
+			w.deliver(c27RouteMon(pph, u.bytes(p.addPath)))
 			if p.up && !ignoredFlavour {
 				u.apply(p, p.pph.Flags&c27FlagL != 0)
 			}
@@ -587,7 +637,7 @@ func c28Run(t *rapid.T, c *kit.Case) string {
 			c.ClassIf(len(u.withdraw) > 0, "rm_withdraw")
 		case "eor":
 			desc = fmt.Sprintf("end-of-rib peer %d", p.idx)
-			w.r.processMsg(c27RouteMon(p.pph, c27Update(nil, nil, nil)))
+			w.deliver(c27RouteMon(p.pph, c27Update(nil, nil, nil)))
 		case "down":
 			desc = fmt.Sprintf("peer-down peer %d (up=%v, %d routes)", p.idx, p.up, len(p.routes))
 			reason := uint8(rapid.SampledFrom([]int{1, 2, 3, 4, 5}).Draw(t, "reason"))
@@ -598,7 +648,7 @@ func c28Run(t *rapid.T, c *kit.Case) string {
 			case 2:
 				data = []byte{0, 1}
 			}
-			w.r.processMsg(c27PeerDown(p.pph, reason, data))
+			w.deliver(c27PeerDown(p.pph, reason, data))
 			if p.up && len(p.routes) > 0 {
 				w.sawDownWithRoutes = true
 				c.Class("down_with_routes")
@@ -607,11 +657,11 @@ func c28Run(t *rapid.T, c *kit.Case) string {
 			p.routes = map[string]c28Route{}
 		case "noise":
 			desc = "stats + initiation"
-			w.r.processMsg(c27Stats(p.pph, 1, c27TLV(7, c27u64(3))))
-			w.r.processMsg(c27Initiation(c27TLV(0, []byte("x"))))
+			w.deliver(c27Stats(p.pph, 1, c27TLV(7, c27u64(3))))
+			w.deliver(c27Initiation(c27TLV(0, []byte("x"))))
 		case "term":
 			desc = "termination"
-			w.r.processMsg(c27Termination(c27TLV(0, []byte("bye")), c27TLV(1, c27u16(0))))
+			w.deliver(c27Termination(c27TLV(0, []byte("bye")), c27TLV(1, c27u16(0))))
 			w.allDown()
 			c.Class("termination")
 			if v := w.check(fmt.Sprintf("step %d: %s", s, desc)); v != "" {
